@@ -15,7 +15,7 @@ for f in sorted(glob.glob(d+'/*.diff')):
     name=os.path.basename(f)
     if ap.returncode!=0:
         print(name,'PATCH DOES NOT APPLY',ap.stdout[:100]); res[name]='noapply'; continue
-    out=subprocess.run(['/verif/bin/zcheck','-all','-repo',repo,'-verif',vdir],capture_output=True,text=True).stdout
+    out=subprocess.run([os.environ.get('ZCHECK','/verif/bin/zcheck'),'-all','-repo',repo,'-verif',vdir],capture_output=True,text=True).stdout
     bad=[l.strip() for l in out.splitlines() if l.lstrip().startswith(('VIOLATED','UNDECIDED')) or 'LOAD FAILED' in l]
     res[name]=bad
     print(name,'silent' if not bad else f'{len(bad)} ALARM(S)')
